@@ -74,6 +74,27 @@ class Defs:
         self.upnames = body.upvar_names() if body.kind == "closure" else {}
         self._memo = {}
 
+    def all_defs_exprs(self, l, depth=0):
+        """expressions of every full definition of local l (for multiply assigned locals)"""
+        out = []
+        for bb, idx, kind, payload in self.defs.get(l, []):
+            if kind == "assign":
+                out.append((bb, self.expr_rvalue(payload["rv"], depth + 1)))
+            else:
+                out.append((bb, self.expr_call(payload, bb, depth + 1)))
+        return out
+
+    def partial_field_defs(self, l, field):
+        """assignments `l.field = ..` (first projection is the field): list of (bb, expr)"""
+        out = []
+        for bb, idx, kind, payload in self.partial.get(l, []):
+            pl = payload["pl"] if kind == "assign" else payload["dest"]
+            ps = [pe for pe in pl["p"] if pe["k"] != "deref"]
+            if len(ps) == 1 and ps[0]["k"] == "field" and ps[0].get("name") == field:
+                e = self.expr_rvalue(payload["rv"]) if kind == "assign" else self.expr_call(payload, bb)
+                out.append((bb, e))
+        return out
+
     # ------------------------------------------------------------------
     def expr_local(self, l, depth=0):
         if l in self._memo:
@@ -272,6 +293,9 @@ def walk(e, f):
         walk(e[3], f)
     elif t == "unop":
         walk(e[2], f)
+    elif t == "alts":
+        for a in e[1]:
+            walk(a, f)
 
 
 def find(e, pred):
@@ -324,6 +348,8 @@ def show(e, depth=0):
         return "%s(%s)" % (e[1], show(e[2], d))
     if t == "phi":
         return "phi(_%d)" % e[1]
+    if t == "alts":
+        return "{" + " | ".join(show(a, d) for a in e[1]) + "}"
     if t == "discr":
         return "discr(%s)" % show(e[1], d)
     if t == "cast":
@@ -435,6 +461,8 @@ def map_expr(e, f):
         e = ("binop", e[1], map_expr(e[2], f), map_expr(e[3], f))
     elif t == "unop":
         e = ("unop", e[1], map_expr(e[2], f))
+    elif t == "alts":
+        e = ("alts", tuple(map_expr(a, f) for a in e[1]))
     return f(e)
 
 
@@ -445,11 +473,18 @@ def resolve_captures(crate, closure_body):
     parent = crate.bodies.get(closure_body.parent)
     if parent is None:
         return None
-    roles, _ = closure_roles(parent)
+    roles, pdefs = closure_roles(parent)
     r = roles.get(closure_body.path)
-    if r is None:
-        return None
-    caps = list(r.call[3][r.arg_index][2])
+    if r is not None:
+        caps = list(r.call[3][r.arg_index][2])
+    else:
+        # a closure / async block that is not passed to a call directly: find its construction
+        caps = None
+        for _, _, s_ in parent.statements():
+            if s_["k"] == "assign" and s_["rv"]["k"] == "aggregate" and s_["rv"]["kind"].get("def") == closure_body.path:
+                caps = [pdefs.expr_operand(o) for o in s_["rv"]["ops"]]
+        if caps is None:
+            return None
     pc = resolve_captures(crate, parent) if parent.kind == "closure" else None
 
     def f(e):
@@ -460,6 +495,21 @@ def resolve_captures(crate, closure_body):
                 return pc[e[1]]
         return e
     return [map_expr(c, f) for c in caps]
+
+
+def resolve_captures_local(crate, closure_body):
+    """capture expressions over the immediate parent's own locals/params/upvars (no owner tagging, one level)"""
+    parent = crate.bodies.get(closure_body.parent)
+    if parent is None:
+        return None
+    roles, pdefs = closure_roles(parent)
+    r = roles.get(closure_body.path)
+    if r is not None:
+        return list(r.call[3][r.arg_index][2])
+    for _, _, s_ in parent.statements():
+        if s_["k"] == "assign" and s_["rv"]["k"] == "aggregate" and s_["rv"]["kind"].get("def") == closure_body.path:
+            return [pdefs.expr_operand(o) for o in s_["rv"]["ops"]]
+    return None
 
 
 def closure_ret(crate, closure_body, defs=None):
@@ -479,3 +529,16 @@ def subst_upvars(e, caps):
 
 def is_oparam(e, i, owner_suffix=None):
     return isinstance(e, tuple) and e and e[0] == "oparam" and e[2] == i and (owner_suffix is None or sg(e[1]).endswith(owner_suffix))
+
+
+def expand_phi(defs, e, depth=0, seen=None):
+    """replace ('phi', l, n) by ('alts', (expr of each definition, ...)) recursively (bounded)"""
+    seen = seen or set()
+
+    def f(x):
+        if x[0] == "phi" and x[1] not in seen and depth < 4:
+            alts = tuple(expand_phi(defs, a, depth + 1, seen | {x[1]}) for _, a in defs.all_defs_exprs(x[1]))
+            if alts:
+                return ("alts", alts)
+        return x
+    return map_expr(e, f)
